@@ -53,14 +53,8 @@ def rules(ctx: Ctx) -> None:
     ctx.touched(ev)
 
     # ---- anchors: registration / deregistration / store ---------------------------------
-    reg = dereg = None
-    store_attr = None
-    for m in P.methods.values():
-        for n in ast.walk(m.node):
-            if isinstance(n, ast.Subscript) and isinstance(n.ctx, ast.Store) and is_self_attr(n.value) and "session" in n.value.attr:
-                reg, store_attr = m, n.value.attr
-    if reg is None:
-        raise AnalysisError("registration method (store into the provider's session map) not found")
+    dereg = None
+    reg, store_attr = common.session_store(prog)
     for m in P.methods.values():
         if m is reg:
             continue
